@@ -9,6 +9,7 @@ import (
 
 	"github.com/dsnet/compress/xflate"
 	"github.com/dsnet/compress/xflate/verifharness/gen"
+	"github.com/dsnet/compress/xflate/verifharness/ref"
 	"github.com/dsnet/compress/xflate/verifharness/vhlib"
 )
 
@@ -38,10 +39,10 @@ func readerActs(pool [][]byte) []rdAct {
 }
 
 type finalObs struct {
-	out     []byte
-	cls     string
+	out      []byte
+	cls      string
 	in, outN int64
-	pan     string
+	pan      string
 }
 
 func readFinal(z rdr) (o finalObs) {
@@ -75,6 +76,37 @@ func runC14(r *vhlib.Run) {
 			long = c.Valid(rng, 9000)
 		}
 		pool := [][]byte{short.Data, long.Data, gen.Mutate(rng, long.Data), long.Data[:len(long.Data)*2/3], nil, c.Valid(rng, 2000).Data}
+		// a stream that fills and wraps the 32 KiB window, and targets that refer
+		// to history the new stream does not have (must not see the old window)
+		switch c.Name {
+		case "flate":
+			big := gen.Plain(rng, 50000)
+			for len(big) < 40000 {
+				big = append(big, vhlib.RandBytes(rng, 5000)...)
+			}
+			pool = append(pool, gen.StdDeflate(rng, big, 6))
+			// fixed block: literal 'X', then length-3 matches at distances 4, 300 and 30000
+			for _, dsym := range []struct{ sym, extra, nb uint64 }{{3, 0, 0}, {16, 43, 7}, {29, 5423, 13}} {
+				var w gen.BitW
+				w.Bits(1, 1)
+				w.Bits(1, 2)
+				w.Code(0x30+'X', 8)
+				w.Code(1, 7) // symbol 257: length 3
+				w.Code(dsym.sym, 5)
+				w.Bits(dsym.extra, uint(dsym.nb))
+				w.Code(0, 7) // end of block
+				w.Align()
+				pool = append(pool, w.Buf)
+			}
+		case "brotli":
+			big := gen.Plain(rng, 50000)
+			for len(big) < 40000 {
+				big = append(big, vhlib.RandBytes(rng, 5000)...)
+			}
+			pool = append(pool, gen.BrotliEnc(rng, big))
+		case "bzip2":
+			pool = append(pool, ref.BZCompress(vhlib.RandBytes(rng, 120000), 1))
+		}
 		acts := readerActs(pool)
 		for ti, target := range pool {
 			fresh := readFinal(c.New(bytes.NewReader(target)))
@@ -104,7 +136,7 @@ func runC14(r *vhlib.Run) {
 				}
 				if len(hist) == 0 {
 					for p := range pool {
-						if r.Quick() && p >= 4 {
+						if r.Quick() && p >= 4 && p < 6 {
 							continue
 						}
 						rec([]int{p}, d)
